@@ -1979,11 +1979,24 @@ def relative_position_angle(alpha1, delta1, alpha2, delta2):
         and isinstance(delta2, Angle)
     ):
         raise TypeError("Invalid input types")
-    da = alpha1 - alpha2
-    da = da.rad()
+    # Differences are taken in degrees (exact for close bodies). The one in
+    # right ascension is reduced to +/-180 by moving the larger of the two
+    # values one turn, which keeps it exact across the 0/360 seam too
+    da = alpha1() - alpha2()
+    if abs(da) > 180.0:
+        turn = 360.0 if da > 0.0 else -360.0
+        if abs(alpha1()) >= abs(alpha2()):
+            da = (alpha1() - turn) - alpha2()
+        else:
+            da = alpha1() - (alpha2() + turn)
+    da = radians(da)
+    dd = radians(delta1() - delta2())
     d1 = delta1.rad()
     d2 = delta2.rad()
-    p = atan2(sin(da), (cos(d2) * tan(d1) - sin(d2) * cos(da)))
+    # cos(d2)*sin(d1) - sin(d2)*cos(d1)*cos(da), written without cancellation
+    s = sin(da / 2.0)
+    north = sin(dd) + 2.0 * sin(d2) * cos(d1) * s * s
+    p = atan2(cos(d1) * sin(da), north)
     p = Angle(p, radians=True)
     return p
 
